@@ -674,163 +674,131 @@ theorem validateRepl_illtyped {s : Schema} {u : Nat} {e : Entry} (hwt : ¬ Class
     rw [key e _ hwt, key e _ hwt]
     exact hwt
 
-/-! ## The two attributes `seal` writes after validation -/
+/-! ## The two attributes `seal` rewrites after validation -/
 
-/-- the entry without `last_modified_cid` / `created_at_cid` -/
-def stripCid (e : Entry) : Entry := e.filter (fun p => !(p.1 == aLastMod || p.1 == aCreatedAt))
-
-theorem getAva_strip (e : Entry) {a : Nat} (h1 : a ≠ aLastMod) (h2 : a ≠ aCreatedAt) :
-    getAva (stripCid e) a = getAva e a := by
+theorem mem_of_getAva {e : Entry} {a : Nat} {v : Ava} (h : getAva e a = some v) : (a, v) ∈ e := by
   induction e with
-  | nil => rfl
+  | nil => simp [getAva] at h
   | cons p r ih =>
-    unfold stripCid at ih ⊢
-    rw [List.filter_cons]
-    split
-    · rw [getAva_cons, getAva_cons, ih]
-    · rename_i hk
-      rw [getAva_cons, ih]
-      have hk' : p.1 = aLastMod ∨ p.1 = aCreatedAt := by
-        cases h1' : p.1 == aLastMod with
-        | true => exact Or.inl (by simpa using h1')
-        | false =>
-          cases h2' : p.1 == aCreatedAt with
-          | true => exact Or.inr (by simpa using h2')
-          | false => simp [h1', h2'] at hk
-      have : (a == p.1) = false := by
-        rcases hk' with hk' | hk'
-        · simpa [hk'] using h1
-        · simpa [hk'] using h2
-      simp [this]
+    rw [getAva_cons] at h
+    by_cases hk : a = p.1
+    · have : (a == p.1) = true := by simpa using hk
+      simp only [this, if_true, Option.some.injEq] at h
+      subst h; subst hk
+      exact List.mem_cons_self
+    · have : (a == p.1) = false := by simpa using hk
+      simp only [this, Bool.false_eq_true, if_false] at h
+      exact List.mem_cons_of_mem _ (ih h)
 
-theorem getAva_strip_cid (e : Entry) {a : Nat} (h : a = aLastMod ∨ a = aCreatedAt) :
-    getAva (stripCid e) a = none := by
-  induction e with
-  | nil => rfl
-  | cons p r ih =>
-    unfold stripCid at ih ⊢
-    rw [List.filter_cons]
-    split
-    · rename_i hk
-      rw [getAva_cons, ih]
-      have : (a == p.1) = false := by
-        simp only [Bool.not_eq_true', Bool.or_eq_false_iff, beq_eq_false_iff_ne] at hk
-        rcases h with h | h
-        · simpa [h] using Ne.symm hk.1
-        · simpa [h] using Ne.symm hk.2
-      simp [this]
-    · exact ih
+/-- the candidate carries `last_modified_cid` and `created_at_cid` as cid sets when it is validated
+(`assign_cid`, `from_repl_entry_v1` and every earlier `seal` put them there; class `object`
+requires them) -/
+def HasCid (e : Entry) : Prop :=
+  (∃ ava, getAva e aLastMod = some ava ∧ ava.syn = synCid) ∧
+  (∃ ava, getAva e aCreatedAt = some ava ∧ ava.syn = synCid)
 
-theorem mem_strip {e : Entry} {p : Nat × Ava} :
-    p ∈ stripCid e ↔ p ∈ e ∧ p.1 ≠ aLastMod ∧ p.1 ≠ aCreatedAt := by
-  simp [stripCid, List.mem_filter]
+/-- replacing an existing cid set by a single valid cid keeps the entry conforming -/
+theorem conforms_setAva_cid {s : Schema} {e : Entry} {a cid : Nat} {old : Ava}
+    (h : Conforms s e) (hold : getAva e a = some old) (hsyn : old.syn = synCid) (hne : a ≠ aClass) :
+    Conforms s (setAva e a ⟨synCid, [⟨cid, true⟩]⟩) := by
+  obtain ⟨ecs, hcs, h⟩ := h
+  refine ⟨ecs, by rw [classSet_setAva_ne e _ hne]; exact hcs, ?_⟩
+  rcases h with h | h
+  · exact Or.inl h
+  right
+  have hmem := mem_of_getAva hold
+  have newOk : ∀ sa : SAttr, AvaOk sa old → AvaOk sa ⟨synCid, [⟨cid, true⟩]⟩ := by
+    intro sa hk
+    refine ⟨Or.inr (by simp), ?_, ?_⟩
+    · rw [hk.2.1]; exact hsyn
+    · intro v hv; simp at hv; subst hv; rfl
+  refine ⟨h.classesKnown, h.supplements, h.excludes, h.requiredDefined, ?_, ?_⟩
+  · rcases h.requiredPresent with hr | hr
+    · exact Or.inl hr
+    · right
+      intro b hb
+      by_cases hba : b = a
+      · subst hba; exact ⟨_, getAva_setAva_self e b _⟩
+      · rw [getAva_setAva_ne e _ hba]; exact hr b hb
+  · rcases h.attrs with ⟨hx, ha⟩ | ⟨hx, hd, ha⟩
+    · left
+      refine ⟨hx, fun p hp => ?_⟩
+      rcases mem_setAva hp with rfl | ⟨hp, _⟩
+      · obtain ⟨sa, h1, h2, h3⟩ := ha _ hmem
+        exact ⟨sa, h1, h2, newOk sa h3⟩
+      · exact ha p hp
+    · right
+      refine ⟨hx, hd, fun p hp => ?_⟩
+      rcases mem_setAva hp with rfl | ⟨hp, _⟩
+      · obtain ⟨h0, sa, h1, h3⟩ := ha _ hmem
+        exact ⟨h0, sa, h1, newOk sa h3⟩
+      · exact ha p hp
 
-theorem classSet_strip (e : Entry) : classSet (stripCid e) = classSet e := by
-  unfold classSet
-  rw [getAva_strip e (by decide) (by decide)]
-
-theorem strip_map_replace (e : Entry) {a : Nat} (x : Ava) (h : a = aLastMod ∨ a = aCreatedAt) :
-    stripCid (e.map (fun p => if p.1 == a then (a, x) else p)) = stripCid e := by
-  have hdrop : (!((a == aLastMod) || (a == aCreatedAt))) = false := by
-    rcases h with h | h <;> simp [h]
-  unfold stripCid
-  induction e with
-  | nil => rfl
-  | cons p r ih =>
-    rw [List.map_cons, List.filter_cons, List.filter_cons, ih]
-    by_cases hk : p.1 = a
-    · have : (p.1 == a) = true := by simpa using hk
-      simp only [this, if_true, hdrop, Bool.false_eq_true, if_false]
-      rw [hk, hdrop]; simp
-    · have : (p.1 == a) = false := by simpa using hk
-      simp [this]
-
-theorem strip_setAva (e : Entry) {a : Nat} (x : Ava) (h : a = aLastMod ∨ a = aCreatedAt) :
-    stripCid (setAva e a x) = stripCid e := by
-  unfold setAva
-  split
-  · exact strip_map_replace e x h
-  · unfold stripCid
-    rw [List.filter_append]
-    rcases h with rfl | rfl <;> simp [List.filter_cons]
-
-theorem strip_seal (cid : Nat) (e : Entry) : stripCid (sealEntry cid e) = stripCid e := by
+theorem conforms_seal {s : Schema} {e : Entry} (cid : Nat) (h : Conforms s e) (hc : HasCid e) :
+    Conforms s (sealEntry cid e) := by
+  obtain ⟨⟨o1, h1, s1⟩, ⟨o2, h2, s2⟩⟩ := hc
   unfold sealEntry
   simp only [sealAttrs, List.foldl_cons, List.foldl_nil]
-  rw [strip_setAva _ (a := AttrName.createdAtCid.atom) _ (Or.inr rfl),
-    strip_setAva _ (a := AttrName.lastModifiedCid.atom) _ (Or.inl rfl)]
+  have step1 := conforms_setAva_cid (cid := cid) h h1 s1 (by decide)
+  have h2' : getAva (setAva e aLastMod ⟨synCid, [⟨cid, true⟩]⟩) aCreatedAt = some o2 := by
+    rw [getAva_setAva_ne e _ (by decide)]; exact h2
+  exact conforms_setAva_cid (cid := cid) step1 h2' s2 (by decide)
+
+theorem hasCid_seal (cid : Nat) (e : Entry) : HasCid (sealEntry cid e) := by
+  unfold sealEntry
+  simp only [sealAttrs, List.foldl_cons, List.foldl_nil]
+  have h2 : getAva (setAva (setAva e aLastMod ⟨synCid, [⟨cid, true⟩]⟩) aCreatedAt ⟨synCid, [⟨cid, true⟩]⟩)
+      aCreatedAt = some ⟨synCid, [⟨cid, true⟩]⟩ := getAva_setAva_self _ _ _
+  have h1 : getAva (setAva (setAva e aLastMod ⟨synCid, [⟨cid, true⟩]⟩) aCreatedAt ⟨synCid, [⟨cid, true⟩]⟩)
+      aLastMod = some ⟨synCid, [⟨cid, true⟩]⟩ := by
+    rw [getAva_setAva_ne _ _ (by decide)]
+    exact getAva_setAva_self e aLastMod _
+  exact ⟨⟨_, h1, rfl⟩, ⟨_, h2, rfl⟩⟩
+
+theorem classSet_seal (cid : Nat) (e : Entry) : classSet (sealEntry cid e) = classSet e := by
+  unfold sealEntry
+  simp only [sealAttrs, List.foldl_cons, List.foldl_nil]
+  show classSet (setAva (setAva e aLastMod _) aCreatedAt _) = classSet e
+  rw [classSet_setAva_ne _ _ (by decide), classSet_setAva_ne _ _ (by decide)]
 
 theorem classWellTyped_seal (cid : Nat) (e : Entry) :
     ClassWellTyped (sealEntry cid e) ↔ ClassWellTyped e := by
   unfold sealEntry
   simp only [sealAttrs, List.foldl_cons, List.foldl_nil]
+  show ClassWellTyped (setAva (setAva e aLastMod _) aCreatedAt _) ↔ ClassWellTyped e
   rw [classWellTyped_setAva_ne _ _ (by decide), classWellTyped_setAva_ne _ _ (by decide)]
 
-/-- no class requires the two attributes that `seal` maintains (true of the shipped schema:
-they are `systemmay` of `object`; checked by the harness on every dumped schema) -/
-def CidNotRequired (s : Schema) : Prop :=
-  ∀ c sc, findClass s c = some sc → ∀ a, (a ∈ sc.systemmust ∨ a ∈ sc.must) →
-    a ≠ aLastMod ∧ a ≠ aCreatedAt
+/-- two facts of the shipped schema (checked by the harness on every schema it dumps): class
+`object` requires `last_modified_cid` and `created_at_cid`, and both are cid-typed -/
+structure SchemaCidFacts (s : Schema) : Prop where
+  objectRequires : ∃ sc, findClass s cObject = some sc ∧
+    (aLastMod ∈ sc.systemmust ∨ aLastMod ∈ sc.must) ∧ (aCreatedAt ∈ sc.systemmust ∨ aCreatedAt ∈ sc.must)
+  cidTyped : ∀ a sa, (a = aLastMod ∨ a = aCreatedAt) → findAttr s a = some sa → sa.syn = synCid
 
-theorem conforms_strip {s : Schema} {e : Entry} (hs : CidNotRequired s) (h : Conforms s e) :
-    Conforms s (stripCid e) := by
-  obtain ⟨ecs, hcs, h⟩ := h
-  refine ⟨ecs, by rw [classSet_strip]; exact hcs, ?_⟩
-  rcases h with h | h
-  · exact Or.inl h
-  · right
-    refine ⟨h.classesKnown, h.supplements, h.excludes, h.requiredDefined, ?_, ?_⟩
-    · rcases h.requiredPresent with hr | hr
-      · exact Or.inl hr
-      · right
-        intro a ha
-        obtain ⟨c, hc, sc, hsc, hm⟩ := ha
-        have := hs c sc hsc a hm
-        rw [getAva_strip e this.1 this.2]
-        exact hr a ⟨c, hc, sc, hsc, hm⟩
-    · rcases h.attrs with ⟨hx, ha⟩ | ⟨hx, hd, ha⟩
-      · exact Or.inl ⟨hx, fun p hp => ha p (mem_strip.1 hp).1⟩
-      · exact Or.inr ⟨hx, hd, fun p hp => ha p (mem_strip.1 hp).1⟩
-
-/-- the stored entry conforms as soon as its stripped form does and its two cid attributes, where
-present, are allowed and well formed -/
-theorem conforms_unstrip {s : Schema} {e : Entry} (h : Conforms s (stripCid e))
-    (hcid : ∀ p ∈ e, (p.1 = aLastMod ∨ p.1 = aCreatedAt) →
-      ∃ sa, findAttr s p.1 = some sa ∧ sa.phantom = false ∧ AvaOk sa p.2 ∧
-        ∀ ecs, classSet e = some ecs → cExtensible ∉ ecs → Allowed s ecs p.1) :
-    Conforms s e := by
-  obtain ⟨ecs, hcs, h⟩ := h
-  rw [classSet_strip] at hcs
-  refine ⟨ecs, hcs, ?_⟩
-  rcases h with h | h
-  · exact Or.inl h
-  · right
-    refine ⟨h.classesKnown, h.supplements, h.excludes, h.requiredDefined, ?_, ?_⟩
-    · rcases h.requiredPresent with hr | hr
-      · exact Or.inl hr
-      · right
-        intro a ha
-        obtain ⟨ava, hava⟩ := hr a ha
-        by_cases h1 : a = aLastMod
-        · rw [getAva_strip_cid e (Or.inl h1)] at hava; cases hava
-        · by_cases h2 : a = aCreatedAt
-          · rw [getAva_strip_cid e (Or.inr h2)] at hava; cases hava
-          · rw [getAva_strip e h1 h2] at hava; exact ⟨ava, hava⟩
-    · rcases h.attrs with ⟨hx, ha⟩ | ⟨hx, hd, ha⟩
-      · left
-        refine ⟨hx, fun p hp => ?_⟩
-        by_cases hk : p.1 = aLastMod ∨ p.1 = aCreatedAt
-        · obtain ⟨sa, h1, h2, h3, _⟩ := hcid p hp hk
-          exact ⟨sa, h1, h2, h3⟩
-        · have : p ∈ stripCid e := mem_strip.2 ⟨hp, fun h => hk (Or.inl h), fun h => hk (Or.inr h)⟩
-          exact ha p this
-      · right
-        refine ⟨hx, hd, fun p hp => ?_⟩
-        by_cases hk : p.1 = aLastMod ∨ p.1 = aCreatedAt
-        · obtain ⟨sa, h1, _, h3, h4⟩ := hcid p hp hk
-          exact ⟨h4 ecs hcs hx, sa, h1, h3⟩
-        · have : p ∈ stripCid e := mem_strip.2 ⟨hp, fun h => hk (Or.inl h), fun h => hk (Or.inr h)⟩
-          exact ha p this
+/-- a live entry of class `object` that passes the schema check carries both cid attributes -/
+theorem hasCid_of_object {s : Schema} {e : Entry} {ecs : List Nat} (hf : SchemaCidFacts s)
+    (h : Conforms s e) (hcs : classSet e = some ecs) (ho : cObject ∈ ecs)
+    (hnc : cConflict ∉ ecs) (hnr : cRecycled ∉ ecs) : HasCid e := by
+  obtain ⟨ecs', hcs', hb⟩ := h
+  rw [hcs] at hcs'; cases hcs'
+  rcases hb with hb | hb
+  · exact absurd hb hnc
+  obtain ⟨sc, hsc, r1, r2⟩ := hf.objectRequires
+  have present : ∀ a, Required s ecs a → ∃ ava, getAva e a = some ava := by
+    rcases hb.requiredPresent with hr | hr
+    · exact absurd hr hnr
+    · exact hr
+  have typed : ∀ a ava, (a = aLastMod ∨ a = aCreatedAt) → getAva e a = some ava → ava.syn = synCid := by
+    intro a ava ha hg
+    have hm := mem_of_getAva hg
+    rcases hb.attrs with ⟨_, hx⟩ | ⟨_, _, hx⟩
+    · obtain ⟨sa, h1, _, h3⟩ := hx _ hm
+      rw [← h3.2.1]; exact hf.cidTyped a sa ha h1
+    · obtain ⟨_, sa, h1, h3⟩ := hx _ hm
+      rw [← h3.2.1]; exact hf.cidTyped a sa ha h1
+  obtain ⟨a1, g1⟩ := present aLastMod ⟨cObject, ho, sc, hsc, r1⟩
+  obtain ⟨a2, g2⟩ := present aCreatedAt ⟨cObject, ho, sc, hsc, r2⟩
+  exact ⟨⟨a1, g1, typed _ _ (Or.inl rfl) g1⟩, ⟨a2, g2, typed _ _ (Or.inr rfl) g2⟩⟩
 
 /-! ## Schema extension keeps valid entries valid -/
 
@@ -920,44 +888,61 @@ theorem conforms_mono {s s' : Schema} {e : Entry} (hx : SchemaExt s s') (h : Con
 
 /-! ## Store paths -/
 
-/-- what the invariant says of a stored entry: without the two attributes `seal` maintains it
-passes the schema check; the only way round is a class attribute that is not a set of class
-names, which only a replication supplier can deliver (`validate_repl` cannot refuse) -/
-def Good (s : Schema) (e : Entry) : Prop :=
-  validate s (stripCid e) = .ok () ∨ ¬ ClassWellTyped e
+/-- what reaches the backend: a candidate that passed the schema check — or, on the replication
+path only, one whose class attribute is not a set of class names, which `validate_repl` cannot
+refuse — and was then sealed -/
+inductive Checked (s : Schema) : Entry → Prop
+  | passed {x : Entry} : validate s x = .ok () → Checked s x
+  | illTyped {x : Entry} : ¬ ClassWellTyped x → Checked s x
+  | sealed {x : Entry} (cid : Nat) : Checked s x → Checked s (sealEntry cid x)
 
-theorem good_of_valid {s : Schema} {e : Entry} (hs : CidNotRequired s)
-    (h : validate s e = .ok ()) : Good s e :=
-  Or.inl ((validate_ok_iff_conforms _ _).2 (conforms_strip hs ((validate_ok_iff_conforms _ _).1 h)))
-
-theorem good_of_conflict {s : Schema} {e : Entry}
-    (h : ∃ ecs, classSet e = some ecs ∧ cConflict ∈ ecs) : Good s e := by
+theorem checked_of_conflict {s : Schema} {e : Entry}
+    (h : ∃ ecs, classSet e = some ecs ∧ cConflict ∈ ecs) : Checked s e := by
   obtain ⟨ecs, hcs, hc⟩ := h
-  left
-  rw [validate_ok_iff_conforms]
-  exact ⟨ecs, by rw [classSet_strip]; exact hcs, Or.inl hc⟩
+  exact .passed ((validate_ok_iff_conforms s e).2 ⟨ecs, hcs, Or.inl hc⟩)
 
-theorem good_seal {s : Schema} {e : Entry} (cid : Nat) (h : Good s e) : Good s (sealEntry cid e) := by
-  rcases h with h | h
-  · left; rw [strip_seal]; exact h
-  · right; rw [classWellTyped_seal]; exact h
-
-theorem good_validateRepl {s : Schema} (hs : CidNotRequired s) (u : Nat) (e : Entry) :
-    Good s (validateRepl s u e) := by
+theorem checked_validateRepl (s : Schema) (u : Nat) (e : Entry) :
+    Checked s (validateRepl s u e) := by
   by_cases hwt : ClassWellTyped e
   · cases hv : validate s e with
-    | ok _ => rw [validateRepl_of_ok hv]; exact good_of_valid hs hv
+    | ok _ => rw [validateRepl_of_ok hv]; exact .passed hv
     | error x =>
       obtain ⟨ecs, h1, h2, _⟩ := validateRepl_of_err (u := u) hv hwt
-      exact good_of_conflict ⟨ecs, h1, h2⟩
-  · exact Or.inr (validateRepl_illtyped hwt)
+      exact checked_of_conflict ⟨ecs, h1, h2⟩
+  · exact .illTyped (validateRepl_illtyped hwt)
 
-theorem good_mono {s s' : Schema} {e : Entry} (hx : SchemaExt s s') (h : Good s e) : Good s' e := by
-  rcases h with h | h
-  · left
-    rw [validate_ok_iff_conforms] at h ⊢
-    exact conforms_mono hx h
-  · exact Or.inr h
+theorem checked_mono {s s' : Schema} {e : Entry} (hx : SchemaExt s s') (h : Checked s e) :
+    Checked s' e := by
+  induction h with
+  | passed hv =>
+    exact .passed ((validate_ok_iff_conforms _ _).2 (conforms_mono hx ((validate_ok_iff_conforms _ _).1 hv)))
+  | illTyped hw => exact .illTyped hw
+  | sealed cid _ ih => exact .sealed cid ih
+
+/-- a checked entry that is live (its class attribute lists neither `conflict` nor `recycled`)
+and carries class `object` satisfies the schema as stored -/
+theorem checked_live_valid {s : Schema} (hf : SchemaCidFacts s) {e : Entry} (h : Checked s e) :
+    ∀ ecs, classSet e = some ecs → cObject ∈ ecs → cConflict ∉ ecs → cRecycled ∉ ecs →
+      validate s e = .ok () := by
+  induction h with
+  | passed hv => intro _ _ _ _ _; exact hv
+  | illTyped hw =>
+    intro ecs hcs _ _ _
+    exfalso; apply hw
+    intro ava hava
+    unfold classSet at hcs
+    rw [hava] at hcs
+    by_cases hs : ava.syn = synIutf8
+    · exact hs
+    · have : (ava.syn == synIutf8) = false := by simpa using hs
+      simp [this] at hcs
+  | sealed cid _ ih =>
+    intro ecs hcs ho hnc hnr
+    rw [classSet_seal] at hcs
+    have hv := ih ecs hcs ho hnc hnr
+    have hc := (validate_ok_iff_conforms _ _).1 hv
+    exact (validate_ok_iff_conforms _ _).2
+      (conforms_seal cid hc (hasCid_of_object hf hc hcs ho hnc hnr))
 
 theorem validateInvalid_ok {s : Schema} {e : Entry} (h : validateInvalid s e = .ok ()) :
     validate s e = .ok () := by
@@ -980,11 +965,11 @@ theorem validateAll_ok {s : Schema} {c : List Entry} (h : validateAll s c = .ok 
       · exact validateInvalid_ok (by rw [hx])
       · exact ih h e he
 
-theorem runSteps_good {s : Schema} (hs : CidNotRequired s) (env : Env)
-    (hcc : ∀ e ∈ env.conflictCopies, Good s e) :
+theorem runSteps_checked {s : Schema} (env : Env)
+    (hcc : ∀ e ∈ env.conflictCopies, Checked s e) :
     ∀ (steps : List Step) (v : Bool) (c w out : List Entry),
-      wellOrderedFrom v steps = true → (v = true → ∀ e ∈ c, Good s e) → (∀ e ∈ w, Good s e) →
-      runSteps env s steps c w = .ok out → ∀ e ∈ out, Good s e := by
+      wellOrderedFrom v steps = true → (v = true → ∀ e ∈ c, Checked s e) → (∀ e ∈ w, Checked s e) →
+      runSteps env s steps c w = .ok out → ∀ e ∈ out, Checked s e := by
   intro steps
   induction steps with
   | nil =>
@@ -1004,19 +989,19 @@ theorem runSteps_good {s : Schema} (hs : CidNotRequired s) (env : Env)
       · cases hr
       · rename_i hv
         exact ih true c w out (by simpa [wellOrderedFrom] using hwo)
-          (fun _ e he => good_of_valid hs (validateAll_ok hv e he)) hw hr
+          (fun _ e he => .passed (validateAll_ok hv e he)) hw hr
     | validateRepl =>
       simp only [runSteps] at hr
       refine ih true _ w out (by simpa [wellOrderedFrom] using hwo) (fun _ e he => ?_) hw hr
       rw [List.mem_map] at he
       obtain ⟨x, _, rfl⟩ := he
-      exact good_validateRepl hs _ x
+      exact checked_validateRepl s _ x
     | sealing =>
       simp only [runSteps] at hr
       refine ih v _ w out (by simpa [wellOrderedFrom] using hwo) (fun hv e he => ?_) hw hr
       rw [List.mem_map] at he
       obtain ⟨x, hx, rfl⟩ := he
-      exact good_seal _ (hc hv x hx)
+      exact .sealed _ (hc hv x hx)
     | store m =>
       simp only [runSteps] at hr
       simp only [wellOrderedFrom, Bool.and_eq_true] at hwo
@@ -1043,7 +1028,7 @@ theorem runSteps_good {s : Schema} (hs : CidNotRequired s) (env : Env)
 
 /-! ## Histories -/
 
-def DbGood (s : Schema) (db : Db) : Prop := ∀ e ∈ db, Good s e
+def DbChecked (s : Schema) (db : Db) : Prop := ∀ e ∈ db, Checked s e
 
 /-- an operation as the code performs it: a well-ordered store path; the conflict copies the
 replication path stores unvalidated carry class `conflict` (`resolve_add_conflict`) -/
@@ -1051,15 +1036,15 @@ structure OpOk (o : Op) : Prop where
   ordered : wellOrdered o.steps = true
   copies : ∀ e ∈ o.env.conflictCopies, ∃ ecs, classSet e = some ecs ∧ cConflict ∈ ecs
 
-theorem applyOp_good {s : Schema} {db : Db} {o : Op} (hs : CidNotRequired s) (ho : OpOk o)
-    (hdb : DbGood s db) : DbGood s (applyOp s db o).1 := by
+theorem applyOp_checked {s : Schema} {db : Db} {o : Op} (ho : OpOk o)
+    (hdb : DbChecked s db) : DbChecked s (applyOp s db o).1 := by
   unfold applyOp
   split
   · rename_i w hw
     intro e he
     rcases List.mem_append.1 he with he | he
     · exact hdb e (List.mem_filter.1 he).1
-    · exact runSteps_good hs o.env (fun e he => good_of_conflict (ho.copies e he)) o.steps false _ []
+    · exact runSteps_checked o.env (fun e he => checked_of_conflict (ho.copies e he)) o.steps false _ []
         w ho.ordered (fun h => by cases h) (fun e he => by cases he) hw e he
   · exact hdb
 
@@ -1075,22 +1060,22 @@ reloads that only extend -/
 def HistoryOk : Schema → List HStep → Prop
   | _, [] => True
   | s, .op o :: r => OpOk o ∧ HistoryOk s r
-  | s, .reload s' :: r => SchemaExt s s' ∧ CidNotRequired s' ∧ HistoryOk s' r
+  | s, .reload s' :: r => SchemaExt s s' ∧ HistoryOk s' r
 
-theorem runHistory_good : ∀ (h : List HStep) (s : Schema) (db : Db),
-    CidNotRequired s → DbGood s db → HistoryOk s h →
-    CidNotRequired (runHistory s db h).1 ∧ DbGood (runHistory s db h).1 (runHistory s db h).2 := by
+theorem runHistory_checked : ∀ (h : List HStep) (s : Schema) (db : Db),
+    DbChecked s db → HistoryOk s h →
+    DbChecked (runHistory s db h).1 (runHistory s db h).2 := by
   intro h
   induction h with
-  | nil => intro s db hs hdb _; exact ⟨hs, hdb⟩
+  | nil => intro s db hdb _; exact hdb
   | cons st r ih =>
-    intro s db hs hdb hok
+    intro s db hdb hok
     cases st with
     | op o =>
       simp only [runHistory]
-      exact ih s _ hs (applyOp_good hs hok.1 hdb) hok.2
+      exact ih s _ (applyOp_checked hok.1 hdb) hok.2
     | reload s' =>
       simp only [runHistory]
-      exact ih s' db hok.2.1 (fun e he => good_mono hok.1 (hdb e he)) hok.2.2
+      exact ih s' db (fun e he => checked_mono hok.1 (hdb e he)) hok.2
 
 end Kanidm.SchemaCheck
